@@ -348,7 +348,6 @@ def _persist(ng, nc):
         c.snapshot('valid', 'all(0 <= g <= 15 for g in geo0) and all(0 <= g <= 15 for g in cal0)')
         if c.get('raised') is None:
             check_packet(c, 6, 1, "pack('<BHH', 11, sum(2 ** g for g in geo0), sum(2 ** g for g in cal0))")
-            c.ensure('mask-bits', 'all(((unpack("<BHH", bytes(pk.data))[1] >> b) & 1 == 1) == (b in geo0) for b in range(16))')
         else:
             check_packet(c, 6, 1, '', errors=('Exception',))
         c.ensure('raises-iff-invalid-id', 'iff(raised is None, valid)')
